@@ -681,6 +681,13 @@ def suite_codec(ctx):
         if m == 'unsupported':
             s.count('unsupported-format')
             continue
+        # P_spec on the implementation, independent of the model: an ASCII codec of n characters transmits exactly n bytes below 0x80 or refuses
+        if kind == 'enc' and not isinstance(c, str):
+            fits = len(arg) == c.string_len and all(ord(ch) < 128 for ch in arg)
+            if got.startswith('ok') != fits or (fits and got != 'ok ' + hx(arg.encode('ascii'))):
+                s.fail({'site': 'AsciiCodec.encode', 'input': line, 'class': 'text not transmitted as it is, or not refused', 'observed': got,
+                        'required': ('ok ' + hx(arg.encode('ascii'))) if fits else 'refused (wrong length or not ASCII): nothing is transformed silently'})
+                continue
         s.count('%s:%s:%s' % (label, kind, got.split(' ')[0] if got.startswith('ok') else got))
         if m != got:
             s.diverge(line, m, got)
